@@ -191,6 +191,13 @@ func TestVerif(t *testing.T){
  m:=p.BytesMontgomery(); m2:=append([]byte{},m...); m[0]^=1; if !bytes.Equal(p.BytesMontgomery(),m2) {t.Fatal("BytesMontgomery buffer aliases")}
  k,_:=NewScalar().SetCanonicalBytes(make([]byte,32)); kb:=k.Bytes(); kb[0]=7; if k.Bytes()[0]!=0 {t.Fatal("Scalar.Bytes aliases")}
  r1:=new(Point).ScalarBaseMult(k); r2:=new(Point).ScalarBaseMult(k); if r1.Equal(r2)!=1 {t.Fatal("impure")}
+ // results held by the caller must survive later calls (no recycled / shared output buffers)
+ q2:=new(Point).Add(p,p)
+ h1:=p.BytesMontgomery(); k1:=append([]byte{},h1...); _=q2.BytesMontgomery(); _=q2.BytesMontgomery(); if !bytes.Equal(h1,k1) {t.Fatal("an earlier BytesMontgomery result changed after later calls")}
+ h2:=p.Bytes(); k2:=append([]byte{},h2...); _=q2.Bytes(); _=q2.Bytes(); if !bytes.Equal(h2,k2) {t.Fatal("an earlier Point.Bytes result changed after later calls")}
+ s3,_:=NewScalar().SetCanonicalBytes([]byte{9,0,0,0,0,0,0,0,0,0,0,0,0,0,0,0,0,0,0,0,0,0,0,0,0,0,0,0,0,0,0,0})
+ h3:=k.Bytes(); k3:=append([]byte{},h3...); _=s3.Bytes(); _=s3.Bytes(); if !bytes.Equal(h3,k3) {t.Fatal("an earlier Scalar.Bytes result changed after later calls")}
+ X1,Y1,Z1,T1:=p.ExtendedCoordinates(); x1:=append([]byte{},X1.Bytes()...); _,_,_,_=q2.ExtendedCoordinates(); _,_,_,_=q2.ExtendedCoordinates(); if !bytes.Equal(X1.Bytes(),x1) {t.Fatal("earlier ExtendedCoordinates results changed after later calls")}; _,_,_=Y1,Z1,T1
 }'''
     rc, out = native.go_test(code)
     if rc != 0:
